@@ -127,6 +127,14 @@ func GenRequests(g *tape.Stream, fg *tape.Stream, s *Setup, p *Profile) [][]*Req
 				q.Hdr = append(q.Hdr, [2]string{"Cookie", "ck=c" + q.Name})
 			}
 			q.Flusher = g.Intn(3) == 1
+			switch g.Intn(6) {
+			case 1:
+				q.Host = "localhost"
+			case 2:
+				q.Host = "127.0.0.1:8080"
+			case 3:
+				q.Hdr = append(q.Hdr, [2]string{"Accept", "application/json"})
+			}
 			q.Progs = make([][]Act, MaxPos)
 			q.Rets = make([]Ret, MaxPos)
 			for pos := 0; pos < maxChain; pos++ {
@@ -204,7 +212,7 @@ func CloneForTwin(in [][]*Req) [][]*Req {
 	out := make([][]*Req, len(in))
 	for i := range in {
 		for _, r := range in[i] {
-			c := &Req{ID: r.ID, Name: r.Name, Chain: r.Chain, Body: r.Body, CtxErr: r.CtxErr, Method: r.Method, Path: r.Path, Query: r.Query, Hdr: r.Hdr, Progs: r.Progs, Rets: r.Rets,
+			c := &Req{ID: r.ID, Name: r.Name, Chain: r.Chain, Body: r.Body, CtxErr: r.CtxErr, Host: r.Host, Method: r.Method, Path: r.Path, Query: r.Query, Hdr: r.Hdr, Progs: r.Progs, Rets: r.Rets,
 				WPlan: r.WPlan, Flusher: r.Flusher, Tag: r.Tag}
 			c.PlannedCancel = r.PlannedCancel
 			if r.AsyncCancelAt >= 0 {
